@@ -325,6 +325,10 @@ def truncate_at_ambiguity(spec, ops, impl):
     """returns (ops', impl', ambiguous): the longest prefix whose decisions are float-robust"""
     if impl["ctor_err"] is not None:
         return ops, impl, False
+    if not valid_for_model(spec):
+        # a two-stage battery with max_power 0 (e.g. the class-swapped twin of an ideal 0 kW battery): the
+        # kernels divide by zero; such cases are dropped by the callers, nothing to truncate
+        return ops, impl, False
     charge = spec["init"]
     exact_state = True
     for k, (op, ob) in enumerate(zip(ops, impl["obs"])):
